@@ -25,6 +25,7 @@ type Profile struct {
 	UnknownNamePct int
 	BadNMPct  int
 	AllowMPoolEM bool
+	TwinUntagged bool // W1: a stop-tag call in which no rule sets the tag is repeated through the untagged variant and compared
 	EvolvePct int // W1: % of runs whose rule set changes between calls (incremental builds, removals)
 }
 
@@ -176,7 +177,7 @@ func (g *G) GenNames(p *Profile, rules []*RuleDef, wantLen int) []string {
 
 // GenCall draws one call with its behaviour plan.
 func (g *G) GenCall(p *Profile, rules []*RuleDef, idx int) *Call {
-	c := &Call{Idx: idx, Method: g.PickInt(p.Methods), Plan: map[int]*RulePlan{}}
+	c := &Call{Idx: idx, Method: g.PickInt(p.Methods), Plan: map[int]*RulePlan{}, TwinOf: -1}
 	n := len(rules)
 	if HasB(c.Method) {
 		c.B = g.Intn(2) == 1
